@@ -10,7 +10,7 @@ GOENV = dict(os.environ, GOFLAGS="-mod=mod", GOPROXY="off", GOSUMDB="off", GOTOO
 TRANSLATOR_PROPS = {"C19", "C09", "C07", "C18", "C04", "C03", "C01", "C02", "C16", "C10", "C08", "C11", "C12", "C13", "C14", "C15", "C05", "C06"}
 # properties whose models are additionally tied to the code by the regenerated definitions of Gen/Funcs.lean:
 # property -> the tie modules (Theorems/<m>.lean with Audit/<m>.lean) that speak about its model
-GEN_TIE_MODULES = {"C11": ["GenTie", "GenTieMore", "GenTieMore2C"], "C12": ["GenTie", "GenTieMore", "GenTieMore2A"], "C13": ["GenTie", "GenTieMore", "GenTieMore2"], "C15": ["GenTie"], "C14": ["GenTieC14"], "C05": ["GenTieQS", "GenTieLinked"], "C06": ["GenTieQS", "GenTieLinked"], "C03": ["GenTieHeap"], "C08": ["GenTieCache"], "C04": ["GenTieBst"], "C07": ["GenTieLru"], "C09": ["GenTieTrie"], "C19": ["GenTieLists"], "C18": ["GenTieFunc"]}
+GEN_TIE_MODULES = {"C11": ["GenTie", "GenTieMore", "GenTieMore2C"], "C12": ["GenTie", "GenTieMore", "GenTieMore2A"], "C13": ["GenTie", "GenTieMore", "GenTieMore2"], "C15": ["GenTie"], "C14": ["GenTieC14"], "C05": ["GenTieQS", "GenTieLinked"], "C06": ["GenTieQS", "GenTieLinked"], "C03": ["GenTieHeap"], "C08": ["GenTieCache"], "C04": ["GenTieBst"], "C07": ["GenTieLru"], "C09": ["GenTieTrie"], "C19": ["GenTieLists"], "C01": ["C01NoPanicGen"], "C18": ["GenTieFunc"]}
 GEN_TIE_PROPS = set(GEN_TIE_MODULES)
 NCPU = os.cpu_count() or 4
 
